@@ -26,7 +26,7 @@ def _worker_case(arg):
 
 
 def run(ctx):
-    fam.run_family(ctx, PROP, configs(ctx), max_exec=ctx.pick(60_000, 2_000_000), budget_s=ctx.pick(150, 3000))
+    fam.run_family(ctx, PROP, configs(ctx), max_exec=ctx.pick(60_000, 2_000_000), budget_s=ctx.pick(1500, 6000))
     # worker-side clause: the real worker loop under every arrival order of the command and its input notices
     from vf import worker_clause as wc
 
